@@ -601,3 +601,78 @@ Proof.
 Qed.
 
 End Reach.
+
+(* ------------------------------------------------ the two directions are independent *)
+Lemma can_copy_after sh s d a x :
+  dstep sh (can_copy sh s) (any_closed s) (get d s) a x -> can_copy sh (note_done a (set d s x)) = can_copy sh s.
+Proof.
+  intro H. apply dstep_pre in H. unfold can_copy.
+  destruct (note_done_fields a (set d s x)) as (N1 & N2 & _). rewrite N1, N2.
+  destruct d; simpl in *; [rewrite H|]; reflexivity.
+Qed.
+
+Lemma any_closed_after a d s x : any_closed (note_done a (set d s x)) = any_closed s.
+Proof.
+  unfold any_closed. destruct (note_done_fields a (set d s x)) as (_ & _ & _ & _ & _ & N6 & N7).
+  rewrite N6, N7. destruct d; reflexivity.
+Qed.
+
+Lemma get_after_other a d d' s x : d' <> d -> get d' (note_done a (set d s x)) = get d' s.
+Proof. intro NE. rewrite get_note_done. apply get_set_other; assumption. Qed.
+
+Lemma set_note_commute a1 a2 s x1 x2 :
+  note_done a2 (set TC (note_done a1 (set CT s x1)) x2) = note_done a1 (set CT (note_done a2 (set TC s x2)) x1).
+Proof.
+  unfold note_done. destruct s as [rp ct tc ck [t0|] fo up dn]; destruct a1, a2; reflexivity.
+Qed.
+
+(* steps of different directions commute: neither can disable, delay or alter the other *)
+Theorem dir_steps_commute sh s d1 a1 s1 d2 a2 s2 :
+  d1 <> d2 -> step sh s (LD d1 a1) s1 -> step sh s (LD d2 a2) s2 ->
+  exists s3, step sh s1 (LD d2 a2) s3 /\ step sh s2 (LD d1 a1) s3.
+Proof.
+  intros NE H1 H2. inversion H1; subst. inversion H2; subst.
+  rename x' into x1. rename x'0 into x2.
+  match goal with A : dstep _ _ _ (get d1 s) a1 x1, B : dstep _ _ _ (get d2 s) a2 x2 |- _ => rename A into H3; rename B into H4 end.
+  assert (D2 : dstep sh (can_copy sh (note_done a1 (set d1 s x1))) (any_closed (note_done a1 (set d1 s x1)))
+                     (get d2 (note_done a1 (set d1 s x1))) a2 x2).
+  { rewrite (can_copy_after _ _ _ _ _ H3), any_closed_after, get_after_other by congruence. assumption. }
+  assert (D1 : dstep sh (can_copy sh (note_done a2 (set d2 s x2))) (any_closed (note_done a2 (set d2 s x2)))
+                     (get d1 (note_done a2 (set d2 s x2))) a1 x1).
+  { rewrite (can_copy_after _ _ _ _ _ H4), any_closed_after, get_after_other by congruence. assumption. }
+  pose proof (S_dir _ _ _ _ _ D2) as T2. pose proof (S_dir _ _ _ _ _ D1) as T1.
+  destruct d1, d2; try congruence.
+  - exists (note_done a2 (set TC (note_done a1 (set CT s x1)) x2)). split; [exact T2|].
+    rewrite set_note_commute. exact T1.
+  - exists (note_done a1 (set TC (note_done a2 (set CT s x2)) x1)). split; [|exact T1].
+    rewrite set_note_commute. exact T2.
+Qed.
+
+(* an endpoint shutting down its sending side never disables any step that is not its own direction's *)
+Theorem shutdown_disables_nothing sh s d s1 l s2 :
+  step sh s (LD d Shutdown) s1 -> step sh s l s2 -> (forall a, l <> LD d a) -> exists s3, step sh s1 l s3.
+Proof.
+  intros H1 H2 NL. inversion H1 as [ | | | | s0 d0 a0 x' HD ]; subst. inversion HD; subst.
+  assert (ND : forall s0, note_done Shutdown s0 = s0) by reflexivity. rewrite ND in *.
+  remember (set d s (upd_shut (get d s))) as s1 eqn:Es1.
+  assert (Erp : s_replied s1 = s_replied s) by (subst s1; destruct d; reflexivity).
+  assert (Ecl : forall sd, closed sd s1 = closed sd s) by (intros sd; subst s1; destruct d, sd; reflexivity).
+  assert (Ecop : forall d0, d_cop (get d0 s1) = d_cop (get d0 s)) by (intros d0; subst s1; destruct d, d0; reflexivity).
+  assert (Epre : d_pre (s_ct s1) = d_pre (s_ct s)) by (subst s1; destruct d; reflexivity).
+  assert (Efin : finished sh s1 = finished sh s).
+  { subst s1. unfold finished, both_done, some_done, is_done. destruct d; reflexivity. }
+  assert (Egr : grace_over sh s1 = grace_over sh s) by (subst s1; destruct d; reflexivity).
+  inversion H2; subst.
+  - eexists. constructor. assumption.
+  - eexists. constructor. rewrite Erp. assumption.
+  - eexists. constructor; auto;
+      try solve [ rewrite Erp; assumption | rewrite Epre; assumption | rewrite Epre; reflexivity
+                | match goal with K : d_cop (s_ct s) = Idle |- d_cop (s_ct _) = Idle => exact (eq_trans (Ecop CT) K) end
+                | match goal with K : d_cop (s_tc s) = Idle |- d_cop (s_tc _) = Idle => exact (eq_trans (Ecop TC) K) end ].
+  - eexists. constructor.
+    + rewrite Ecl. assumption.
+    + rewrite Efin, Egr. assumption.
+  - assert (NE : d <> d0) by (intro E; subst; apply (NL a); reflexivity).
+    destruct (dir_steps_commute sh s d Shutdown _ d0 a _ NE H1 H2) as (s3 & T & _).
+    exists s3. exact T.
+Qed.
